@@ -201,6 +201,28 @@ func (x *Exec) specCall(env *evalEnv, n *ast.CallExpr) (Val, bool) {
 	case "isnil":
 		a := x.expr(env, n.Args[0])
 		return Val{x.eqVals(a, Val{"0", types.Typ[types.UntypedNil]}), tBool}, true
+	case "unchanged":
+		// unchanged(T): every field of every object of struct type T that existed at function entry has its entry value
+		if env.old == nil {
+			x.fail(n.Pos(), "unchanged() needs an old state")
+		}
+		t := x.resolveType(env, n.Args[0])
+		st, ok := structOf(t)
+		if !ok {
+			x.fail(n.Pos(), "unchanged(): %s is not a struct type", t)
+		}
+		var cs []string
+		for i := 0; i < st.NumFields(); i++ {
+			f := st.Field(i)
+			h1, h0 := x.heapOf(x.st, f), x.heapOf(env.old, f)
+			if h1 == h0 {
+				continue
+			}
+			x.qcount++
+			r := fmt.Sprintf("r!q%d", x.qcount)
+			cs = append(cs, fmt.Sprintf("(forall ((%s Int)) (! (=> (and (< 0 %s) (< %s %s)) (= (select %s %s) (select %s %s))) :pattern ((select %s %s))))", r, r, r, env.old.alloc, h1, r, h0, r, h1, r))
+		}
+		return Val{and(cs...), tBool}, true
 	case "is_int":
 		a := x.expr(env, n.Args[0])
 		return Val{eq("(itag "+a.S+")", fmt.Sprint(x.ctx.TypeTag(tInt))), tBool}, true
@@ -225,6 +247,42 @@ func (x *Exec) specCall(env *evalEnv, n *ast.CallExpr) (Val, bool) {
 			return Val{"(select " + v.S + " " + k.S + ")", tBool}, true
 		}
 		x.fail(n.Pos(), "seen() outside a map range loop")
+	}
+	// spec-language definitions: //@ def name(params) = body
+	if env.pkg != nil && x.v.cs.Defs != nil {
+		if d, ok := x.v.cs.Defs[env.pkg.Path()+"::"+id.Name]; ok {
+			if d.Node == nil {
+				nd, err := parseSpec(d.Text)
+				if err != nil {
+					panic(evalError{fmt.Sprintf("%s:%d: BINDING: %v", d.File, d.Line, err)})
+				}
+				d.Node = nd
+			}
+			fl, err := parseExprString("func(" + d.Params + "){}")
+			if err != nil {
+				panic(evalError{fmt.Sprintf("%s:%d: BINDING: bad def params", d.File, d.Line)})
+			}
+			e2 := &evalEnv{pkg: env.pkg, spec: true, bound: map[string]Val{}, old: env.old}
+			k := 0
+			for _, f := range fl.(*ast.FuncLit).Type.Params.List {
+				t := x.resolveType(e2, f.Type)
+				for _, nm := range f.Names {
+					if k >= len(n.Args) {
+						x.fail(n.Pos(), "BINDING: def %s: too few arguments", d.Name)
+					}
+					a := x.expr(env, n.Args[k])
+					e2.bound[nm.Name] = Val{x.convertTo(a, t).S, t}
+					k++
+				}
+			}
+			if g, ok := d.Node.(*SGo); ok {
+				e3 := *e2
+				e3.subs = g.Subs
+				v := x.expr(&e3, g.E)
+				return v, true
+			}
+			return Val{x.spec(e2, d.Node), tBool}, true
+		}
 	}
 	return Val{}, false
 }
